@@ -12,7 +12,7 @@ import subprocess
 import sys
 
 VERIF = os.path.dirname(os.path.dirname(os.path.abspath(__file__)))
-REPO = '/repo'
+REPO = os.environ.get('SEED_REPO', '/repo')   # SEED_REPO=<scratch worktree of /repo>: validate there instead of in /repo
 PY = '/venv/bin/python'
 
 
@@ -55,7 +55,7 @@ def main():
         meta['tests_unchanged'] = tests() == base_tests
         det = {}
         for c in checks:
-            rc2, out2 = sh(f'./check {c} quick', cwd=VERIF, timeout=3000)
+            rc2, out2 = sh(f'VERIF_REPO={REPO} ./check {c} quick', cwd=VERIF, timeout=3000)
             viol = [l for l in out2.splitlines() if l.startswith('VIOLATION')]
             det[c] = {'exit': rc2, 'violation_lines': viol, 'tail': out2[-300:]}
             meta['ran'].append(f'./check {c} quick')
